@@ -25,6 +25,7 @@ import (
 	"strings"
 	"sync"
 
+	"github.com/bwmarrin/snowflake"
 	"github.com/xujiajun/nutsdb/ds/list"
 	"github.com/xujiajun/nutsdb/ds/set"
 	"github.com/xujiajun/nutsdb/ds/zset"
@@ -138,6 +139,8 @@ type (
 		committedTxIds          map[uint64]struct{}
 		MaxFileID               int64
 		mu                      sync.RWMutex
+		txIDMu                  sync.Mutex
+		txIDNode                *snowflake.Node  // generates the transaction ids of this DB
 		KeyCount                int // total key number ,include expired, deleted, repeated.
 		closed                  bool
 		isMerging               bool
